@@ -139,6 +139,7 @@ def run(ck, F, tier):
     ck.rule("L4", "encode framing")
     ck.rule("L5", "errors, not panics, in the subcommands")
     ck.rule("L6", "ber result lines")
+    ck.rule("L8", "the systematic subcommand prints the converted matrix: the conversion itself (error mapping, rank test, column placement: the rules of C09, run here)")
     ck.rule("L7", "an unreadable alist file ends in an error message, not a panic: the parser the subcommands call is total (the rule C08-P1, run here)")
 
     cli_dvbs2_table(ck, F, "L1")
@@ -250,6 +251,8 @@ def run(ck, F, tier):
     from ..report import RuleAlias
     from . import c08
     c08.run(RuleAlias(ck, "L7", only=lambda r_, k_: r_ == "P1"), F, "quick")
+    from . import c09
+    c09.run(RuleAlias(ck, "L8", only=lambda r_, k_: r_ in ("Y2", "Y3")), F, "quick")
 
 
 def encode_framing_rules(ck, F, b, t, wr, rd, enc):
